@@ -88,7 +88,8 @@ Idle == [pc |-> "idle", m |-> "-", owner |-> "-", acc |-> FALSE, popBefore |-> F
 \* always the LAST conjunct of an action so that the primed variables are already determined
 Log(rec) == hist' = IF RecordHist
                     THEN Append(hist, rec @@ [cont |-> cont', pc |-> [f \in Fetchers |-> fs'[f].pc],
-                                              hpc |-> [t \in Threads |-> hs'[t].pc]])
+                                              hpc |-> [t \in Threads |-> hs'[t].pc],
+                                              own |-> [t \in Threads |-> hs'[t].owner]])
                     ELSE hist
 
 WantSet(f) == {Wants[f][k] : k \in 1..Len(Wants[f])}
